@@ -1,4 +1,5 @@
 """C04 Quantification, restriction, apply-and-quantify, substitution: wiring and dualisation tables"""
+import ecache
 import eunits
 import ewrap
 import kinds
@@ -19,5 +20,10 @@ def run(ctx):
     ctx.explain("E-UNITS: no variable number meets a level number (both are u32) in the rules crate(s).")
     nfn, _ = eunits.run(ctx, F, crates=("oxidd_rules_bdd",))
     ctx.floor("E-UNITS", "function bodies analysed", nfn, 100)
+    ctx.explain("E-CACHE: in this kind's algorithm functions the apply-cache key of every insertion equals the key "
+                "of the lookup, the memoised value is the returned value, hit and miss paths agree, tags are disjoint.")
+    n = ecache.run(ctx, F, crates=("oxidd_rules_bdd::",))
+    ctx.floor("E-CACHE", "cache-using algorithm functions", n, 10)
+    ecache.check_hit_equals_miss(ctx, F, crates=("oxidd_rules_bdd::",))
     ctx.not_decided = ("correctness of the recursion (set_pop, level skipping), restrict's polarity walk, "
                        "simultaneity of substitution")
